@@ -29,7 +29,7 @@ func init() {
 			"connection is read by prefetch under a read deadline) with unlimited data ready at the client. The scripted client connection stamps the entry of the first underlying read (t0) and the return of " +
 			"every read (tau_i, cumulative bytes C_i). oracle (one-sided, sound under any load): with t0 = span entry + latency (no token can be taken earlier), C_i <= burst + rate*(tau_i - t0) + 1 per connection; for the total limiter the same on the merged " +
 			"stream of all connections; t0 - (span entry) >= latency; bytes the sink read are exactly the prefix of the client's stream that was pulled. non-trivial = >=3 reads observed; " +
-			"distinct = hash(all run parameters). layouts: throttle and consumer in one route / throttle alone in a non-terminal route / throttle in a subroute (the stream is read after the handler returned) / a matcher in front of the throttle (prefetched bytes must not be lost). storm rounds: eight connections with a full burst ready enter a full total limiter together; one burst (+ rate x T) may be read. own-route layout may put a matcher (1-200 bytes) in the route that follows the throttle handler's route: the first read is then the matching phase's prefetch. clients with everything ready may write it in segments of 100..4000 bytes (short reads with more data right behind them, reader buffers larger than the burst). a second throttle handler may follow the first (same route or inside a subroute behind it): the bound of each handler holds.",
+			"distinct = hash(all run parameters). layouts: throttle and consumer in one route / throttle alone in a non-terminal route / throttle in a subroute (the stream is read after the handler returned) / a matcher in front of the throttle (prefetched bytes must not be lost). storm rounds: eight connections with a full burst ready enter a full total limiter together; one burst (+ rate x T) may be read. own-route layout may put a matcher (1-200 bytes) in the route that follows the throttle handler's route: the first read is then the matching phase's prefetch. clients with everything ready may write it in segments of 100..4000 bytes (short reads with more data right behind them, reader buffers larger than the burst). a second throttle handler may follow the first (same route or inside a subroute behind it): the bound of each handler holds. in a fifth of the runs the server is stopped and its configuration unloaded halfway through: connections in flight stay within their bounds.",
 		Assumptions: []string{
 			"unless a run says otherwise no matcher precedes the handler, so every underlying read is a throttled read; in pre-match runs the reads made for matching (before the handler chain is entered) are left out of the bound",
 			"observer clock is read after each read returns, so delays can only hide violations",
